@@ -365,15 +365,19 @@ parse_next_record_header:
             padLen++;
             p--;
         }
-        if (p == decryptTo)
+        ptLen -= padLen;
+        innerType = *p;
+        if (innerType == 0 ||
+                (ptLen == 0 && innerType != SSL_RECORD_TYPE_APPLICATION_DATA))
         {
             /* If receiver finds no non-zero octets, it MUST terminate
-               the connection with an "unexpected_message" alert. */
+               the connection with an "unexpected_message" alert.  The
+               octet found may be the very first one: the content is then
+               empty, which only application data may be (RFC 8446, 5.1
+               and 5.4). */
             ssl->err = SSL_ALERT_UNEXPECTED_MESSAGE;
             goto encodeResponse;
         }
-        ptLen -= padLen;
-        innerType = *p;
 
 #ifdef DEBUG_TLS_1_3_DECODE
         psTracePrintRecordType(innerType, PS_TRUE, PS_TRUE);
